@@ -209,6 +209,9 @@ class TokenStrings(Family):
     def setup(self, tier):
         self.j = make_judge(self.extra_vars)
 
+    def isolate(self):
+        X.PARSER = X.MathParser()
+
     def cases(self, tier):
         n = self.maxlen[tier] if isinstance(self.maxlen, dict) else self.maxlen
         idx = range(len(self.tokens))
@@ -271,6 +274,9 @@ class Chains(Family):
 
     def setup(self, tier):
         self.nfresh = 0
+
+    def isolate(self):
+        X.PARSER = X.MathParser()
 
     def cases(self, tier):
         nmax = 4 if tier == 'thorough' else 3
@@ -385,6 +391,9 @@ class Names(Family):
 
     def setup(self, tier):
         self.j = make_judge(NAMES_VARS, NAMES_FUNCS)
+
+    def isolate(self):
+        X.PARSER = X.MathParser()
 
     def cases(self, tier):
         for a in range(len(E4_ATOMS)):
